@@ -3,6 +3,8 @@
    records.  fold_c is the casefold table (any). *)
 From Curies.model Require Import Str PyData Trie Conv Query Val Answer Spec CheckQ Mutate.
 From Curies.proofs Require Import StrFacts IndexFacts QueryFacts C04Facts MutateFacts.
+From Curies.model Require Import CheckM.
+From Curies.proofs Require Import PModelM.
 
 Theorem C05_init : forall d rs c, mk_conv true d rs = Val c -> swf c.
 Proof. exact mk_conv_swf. Qed.
@@ -84,3 +86,9 @@ Example C05_nonvacuous :
   expand c3 [120;58;49]%N false false = Val (Some [104;47;49]%N) /\
   compress c3 [105;47;49]%N false false = Val (Some [103;111;58;49]%N).
 Proof. eexists. split; [vm_compute; reflexivity|]. vm_compute. auto. Qed.
+
+(* the executable predicate of the run (after every step: outcome and records as the naive step specification says, every query as
+   a converter freshly built from the observed records answers) accepts the model's own observation on every valid history *)
+Theorem C05_P_model : forall k : mcase, valid_m k = true -> P_C05 k (model_mobs k) = true.
+Proof. exact P_C05_model. Qed.
+Print Assumptions C05_P_model.
